@@ -191,6 +191,7 @@ def run_histories(c, rnd, n_steps, pna_tag="c10"):
     done = 0
     hno = 0
     with cli.Sandbox(pna_tag) as sb:
+        forced = [("unsolid", "first"), ("keepsolid", "first"), ("unsolid", "middle"), ("default", "first"), ("keepsolid", "middle")]
         while done < n_steps:
             hno += 1
             d = sb.path("h%d" % hno)
@@ -216,15 +217,31 @@ def run_histories(c, rnd, n_steps, pna_tag="c10"):
                 if done >= n_steps:
                     break
                 names = X.names_of(before)
+                # forced combinations on archives that hold a solid block with at least two entries: delete of the block's
+                # FIRST entry (and of a middle one) under each strategy — the walk over the block must go on behind a dropped
+                # entry (seeded C10-5: map_while instead of filter_map under --unsolid; C11-4: the same under --keep-solid)
+                blocks = {}
+                for o in before:
+                    if "solid_header" not in o and o.get("solid", -1) >= 0:
+                        blocks.setdefault(o["solid"], []).append(bytes.fromhex(o["name"]).decode("utf-8", "replace"))
+                big = [b for b in blocks.values() if len(b) >= 2]
+                force = forced.pop() if (big and forced and stepno == 0) else None
                 while True:
-                    cmd = X.gen_command(rnd, names)
+                    cmd = X.gen_command(rnd, names, kinds=["delete"] if force else None)
+                    if force:
+                        b = big[0]
+                        victim = b[0] if force[1] == "first" else b[len(b) // 2] if len(b) > 2 else b[0]
+                        cmd["patterns"] = ["".join("[%s]" % ch if ch in "*?[]{}\\" else ch for ch in victim)]
+                        cmd["exclude"] = []
                     m = X.matched(cmd["patterns"], names) if cmd["patterns"] else []
                     x = X.matched(cmd["exclude"], names) if cmd["exclude"] else []
                     if m is not None and x is not None:
                         break
+                    if force:
+                        force = None
                 if cmd["name"] == "chmod" and rnd.random() < 0.05:
                     cmd["mode"] = rnd.choice(BAD_MODES); cmd["case"] = X.hx(cmd["mode"])
-                strategy = rnd.choice(["unsolid", "keepsolid", "keepsolid", "default"])
+                strategy = force[0] if force else rnd.choice(["unsolid", "keepsolid", "keepsolid", "default"])
                 with_pw = rnd.random() < (0.8 if encrypted else 0.3)
                 mh, xh = set(X.hx(n) for n in m), set(X.hx(n) for n in x)
                 sel = lambda nh: nh in mh and nh not in xh
